@@ -5,3 +5,5 @@ FUNCTIONS = ['uxarray.grid.grid.Grid.face_areas']
 STANDINS = ["areas"]
 ASSUMPTIONS = []
 EXPLANATION = "quadrature tables / Jacobian contracts + bounded stand-in against the exact spherical excess"
+LEVEL_TEXT = 'Grid.face_areas proved to cache exactly the default-rule computation from every cache state (history contract over compute_face_areas as an uninterpreted spec function); accuracy bands, invariances, convergence and the quadrature tables are bounded (generated convex faces against the exact spherical excess)'
+LEVEL_NOTE = 'compute_face_areas / get_all_face_area_from_coords assumed (uninterpreted); accuracy bands are not decidable by contracts (approximation theory) - measured only'
